@@ -330,6 +330,9 @@ def summarize_crash(stderr):
     return (stderr.strip().split("\n") or ["crash"])[-1][:200]
 
 
+_W64 = re.compile(r"(?<![\w.])\d{20,}(?![\w.])")
+
+
 class Runner:
     """runs batches of histories for one container and accumulates statistics"""
 
@@ -354,6 +357,10 @@ class Runner:
     def run(self, histories):
         """histories: list of list[str] (each starts with its constructor, the runner adds `reset`).
         returns list of (hist_index, [Diff])"""
+        # the line protocol carries 64-bit words: a generator that simulated `v + 1000` without wrap-around would
+        # otherwise hand the C side (strtoull saturates) and the Lean side (unbounded Nat) different numbers
+        histories = [[_W64.sub(lambda m: str(int(m.group(0)) % 2 ** 64), op) if _W64.search(op) else op for op in h]
+                     for h in histories]
         pending = list(range(len(histories)))
         self.skipped = set()
         c_out = {}
